@@ -1,68 +1,150 @@
 /-
   Proofs.GoTieLazy — `lazyOpener` of cmd/age/age.go, as it stands in the source.
 
-  `(*lazyOpener).Write` and `.Close` are TRANSLATED on every run; `os.Create`, `(*os.File).Write`
-  and `.Close` are parameters, a nil `*os.File` is an abstract predicate. The theorems give the
-  three-state machine of the model (`Cli.Lazy`: unopened / opened / failed) on the source text:
-  the output file is created by the FIRST `Write` and by nothing else — `Close` has no access to
-  `os.Create` at all, a `Write` on an opened or failed opener returns without calling it (it is
-  handed an `os.Create` that FAULTS when called) — a failed creation is remembered and reported by
-  every later `Write`, and `Close` on an opener that never wrote closes nothing.
+  `(*lazyOpener).Write` and `.Close` are TRANSLATED on every run with everything outside them as one
+  explicit state (`funcSpec.world`); `os.Create`, `(*os.File).Write` and `.Close` are parameters, a
+  nil `*os.File` is an abstract predicate. The theorems give the three-state machine of the model
+  (`Cli.Lazy`: unopened / opened / failed) on the source text: the output file is created by the
+  FIRST `Write` and by nothing else — `Close` has no access to `os.Create` at all, a `Write` on an
+  opened or failed opener returns without calling it (it is handed an `os.Create` that FAULTS when
+  called) — a failed creation is remembered and reported by every later `Write`, and `Close` on an
+  opener that never wrote closes nothing. And `lazy_write_refines`: read in the model's world, the
+  translated `Write` IS `Cli.Proc.write (.lazy name)`.
 -/
 import AgeModel.GoSem
+import AgeModel.Cli
 import AgeModel.Extracted.Funcs
 namespace AgeModel
 namespace GoTie
 open Extracted
 
+section
+variable {τ φ : Type} (isNil : φ → Bool) (Create : Bytes → τ → Go.M (φ × Option Go.Err × τ))
+  (FW : φ → Bytes → τ → Go.M (Int × Option Go.Err × τ)) (FC : φ → τ → Go.M (Option Go.Err × τ))
+
 /-- the first write: create, then (if that worked) write -/
-theorem lazy_write_unopened {φ : Type} (isNil : φ → Bool) (Create : Bytes → Go.M (φ × Option Go.Err))
-    (FW : φ → Bytes → Go.M (Int × Option Go.Err)) (name : Bytes) (f : φ) (hf : isNil f = true) (p : Bytes) :
-    main_lazyOpener_Write isNil Create FW ⟨name, f, none⟩ p =
-      (do let t ← Create name
-          if (t.2 != none) = true then pure (0, t.2, ⟨name, t.1, t.2⟩)
+theorem lazy_write_unopened (name : Bytes) (f : φ) (hf : isNil f = true) (p : Bytes) (t0 : τ) :
+    main_lazyOpener_Write isNil Create FW ⟨name, f, none⟩ p t0 =
+      (do let t ← Create name t0
+          if (t.2.1 != none) = true then pure (0, t.2.1, ⟨name, t.1, t.2.1⟩, t.2.2)
           else do
-            let r ← FW t.1 p
-            pure (r.1, r.2, ⟨name, t.1, t.2⟩)) := by
+            let r ← FW t.1 p t.2.2
+            pure (r.1, r.2.1, ⟨name, t.1, t.2.1⟩, r.2.2)) := by
   simp only [main_lazyOpener_Write, hf, bind, Except.bind, pure, Except.pure, beq_self_eq_true, Bool.and_self, if_true]
   first
-    | done
-    | (cases Create name with
-       | error e => rfl
-       | ok t =>
-         obtain ⟨f', e'⟩ := t
-         cases e' with
-         | some x => rfl
-         | none => first | rfl | (simp only []; cases FW f' p <;> rfl))
+  | done
+  | cases Create name t0 with
+    | error e => rfl
+    | ok t =>
+      obtain ⟨f', e', t1⟩ := t
+      cases e' with
+      | some x => rfl
+      | none =>
+        first
+          | rfl
+          | (simp only [bne_self_eq_false, Bool.false_eq_true, if_false]; first | done | (cases FW f' p t1 <;> rfl))
 
 /-- a write on an opened file: no creation (the creation function may fault when called) -/
-theorem lazy_write_opened {φ : Type} (isNil : φ → Bool) (FW : φ → Bytes → Go.M (Int × Option Go.Err))
-    (name : Bytes) (f : φ) (hf : isNil f = false) (p : Bytes) :
-    main_lazyOpener_Write isNil (fun _ => .error (.panic 99)) FW ⟨name, f, none⟩ p =
-      (do let r ← FW f p
-          pure (r.1, r.2, ⟨name, f, none⟩)) := by
+theorem lazy_write_opened (name : Bytes) (f : φ) (hf : isNil f = false) (p : Bytes) (t0 : τ) :
+    main_lazyOpener_Write isNil (fun _ _ => .error (.panic 99)) FW ⟨name, f, none⟩ p t0 =
+      (do let r ← FW f p t0
+          pure (r.1, r.2.1, ⟨name, f, none⟩, r.2.2)) := by
   simp only [main_lazyOpener_Write, hf, bind, Except.bind, pure, Except.pure, Bool.false_and, Bool.false_eq_true, if_false, bne_self_eq_false]
   first
-    | (cases FW f p <;> rfl)
-    | skip
+    | done
+    | (cases FW f p t0 <;> rfl)
 
-/-- a write after a failed creation: the remembered error, no second attempt, no write -/
-theorem lazy_write_failed {φ : Type} (isNil : φ → Bool) (name : Bytes) (f : φ) (e : Go.Err) (p : Bytes) :
-    main_lazyOpener_Write isNil (fun _ => .error (.panic 99)) (fun _ _ => .error (.panic 98)) ⟨name, f, some e⟩ p =
-      .ok (0, some e, ⟨name, f, some e⟩) := by
+/-- a write after a failed creation: the remembered error, no second attempt, no write, the world untouched -/
+theorem lazy_write_failed (name : Bytes) (f : φ) (e : Go.Err) (p : Bytes) (t0 : τ) :
+    main_lazyOpener_Write isNil (fun _ _ => .error (.panic 99)) (fun _ _ _ => .error (.panic 98)) ⟨name, f, some e⟩ p t0 =
+      .ok (0, some e, ⟨name, f, some e⟩, t0) := by
   simp [main_lazyOpener_Write, bind, Except.bind, pure, Except.pure]
 
 /-- Close: nothing to close unless a file was opened -/
-theorem lazy_close {φ : Type} (isNil : φ → Bool) (FC : φ → Go.M (Option Go.Err)) (name : Bytes) (f : φ) (err : Option Go.Err) :
-    main_lazyOpener_Close isNil FC ⟨name, f, err⟩ = if isNil f = true then .ok none else FC f := by
+theorem lazy_close (name : Bytes) (f : φ) (err : Option Go.Err) (t0 : τ) :
+    main_lazyOpener_Close isNil FC ⟨name, f, err⟩ t0 = if isNil f = true then .ok (none, t0) else FC f t0 := by
   simp only [main_lazyOpener_Close, bind, Except.bind, pure, Except.pure]
   cases isNil f with
   | true => rfl
   | false =>
     simp only [Bool.not_false, if_true, Bool.false_eq_true, if_false]
-    first
-      | (cases FC f <;> rfl)
-      | skip
+    cases FC f t0 <;> rfl
+end
+
+/-! ## In the model's world -/
+
+open Cli
+
+/-- `os.Create` in the model: `Cli.create` (a file handle is the path it was opened at; nil = none) -/
+def mCreate (eC : Go.Err) (name : Bytes) (w : World) : Go.M (Option Path × Option Go.Err × World) :=
+  match create w name with
+  | none => .ok (none, some eC, w)
+  | some (w', t) => .ok (some t, none, w')
+
+/-- `(*os.File).Write` in the model: `Proc.writeFile` -/
+def mFileWrite (eW : Go.Err) (f : Option Path) (d : Bytes) (w : World) : Go.M (Int × Option Go.Err × World) :=
+  match f with
+  | none => .error .index        -- a nil file is never written to (shown below)
+  | some t =>
+    let r := ({ w := w } : Proc).writeFile t d
+    .ok (0, if r.2 then none else some eW, r.1.w)
+
+/-- the model's opener state that a Go opener stands for -/
+def lzOf (l : main_lazyOpener (Option Path)) : Lazy :=
+  if l.err.isSome then .failed else match l.f with
+    | some t => .opened t
+    | none => .unopened
+
+/-- the translated `Write`, run in the model's world, is the model's `Proc.write (.lazy name)`: same world, same opener
+    state, same success — whenever the opener is in a state it can reach (a remembered error goes with no file) -/
+theorem lazy_write_refines (eC eW : Go.Err) (l : main_lazyOpener (Option Path)) (d : Bytes) (p : Proc)
+    (hp : p.lz = lzOf l) :
+    ∃ n e l' w', main_lazyOpener_Write Option.isNone (mCreate eC) (mFileWrite eW) l d p.w = .ok (n, e, l', w') ∧
+      ((Proc.write (.lazy l.name) p d).1.w = w' ∧ (Proc.write (.lazy l.name) p d).1.lz = lzOf l' ∧
+        (Proc.write (.lazy l.name) p d).2 = e.isNone) := by
+  obtain ⟨name, f, err⟩ := l
+  cases err with
+  | some e0 =>
+    refine ⟨0, some e0, ⟨name, f, some e0⟩, p.w, ?_, ?_⟩
+    · simp [main_lazyOpener_Write, bind, Except.bind, pure, Except.pure]
+    · have : p.lz = .failed := by simpa [lzOf] using hp
+      simp [Proc.write, this, lzOf]
+  | none =>
+    cases f with
+    | some t =>
+      have hl : p.lz = .opened t := by simpa [lzOf] using hp
+      refine ⟨0, (if (Proc.writeFile ({ w := p.w } : Proc) t d).2 then none else some eW), ⟨name, some t, none⟩,
+        (Proc.writeFile ({ w := p.w } : Proc) t d).1.w, ?_, ?_⟩
+      · simp only [main_lazyOpener_Write, mFileWrite, Option.isNone, bind, Except.bind, pure, Except.pure, Bool.false_and,
+          Bool.false_eq_true, if_false, bne_self_eq_false]
+        first | rfl | done
+      · simp only [Proc.write, hl, lzOf, Option.isSome, Bool.false_eq_true, if_false]
+        have hw : (Proc.writeFile p t d).1.w = (Proc.writeFile ({ w := p.w } : Proc) t d).1.w ∧
+            (Proc.writeFile p t d).2 = (Proc.writeFile ({ w := p.w } : Proc) t d).2 ∧ (Proc.writeFile p t d).1.lz = p.lz := by
+          simp only [Proc.writeFile]; cases p.w.get t <;> simp
+        refine ⟨hw.1, by rw [hw.2.2, hl], ?_⟩
+        rw [hw.2.1]; cases (Proc.writeFile ({ w := p.w } : Proc) t d).2 <;> rfl
+    | none =>
+      have hl : p.lz = .unopened := by simpa [lzOf] using hp
+      cases hc : create p.w name with
+      | none =>
+        refine ⟨0, some eC, ⟨name, none, some eC⟩, p.w, ?_, ?_⟩
+        · simp [main_lazyOpener_Write, mCreate, hc, Option.isNone, bind, Except.bind, pure, Except.pure]
+        · simp [Proc.write, hl, hc, lzOf]
+      | some r =>
+        obtain ⟨w1, t⟩ := r
+        refine ⟨0, (if (Proc.writeFile ({ w := w1 } : Proc) t d).2 then none else some eW), ⟨name, some t, none⟩,
+          (Proc.writeFile ({ w := w1 } : Proc) t d).1.w, ?_, ?_⟩
+        · simp only [main_lazyOpener_Write, mCreate, mFileWrite, hc, Option.isNone, bind, Except.bind, pure, Except.pure,
+            beq_self_eq_true, Bool.and_self, if_true, bne_self_eq_false, Bool.false_eq_true, if_false]
+          first | rfl | done
+        · simp only [Proc.write, hl, hc, lzOf, Option.isSome, Bool.false_eq_true, if_false]
+          have hw : (Proc.writeFile ({ p with w := w1, lz := .opened t } : Proc) t d).1.w = (Proc.writeFile ({ w := w1 } : Proc) t d).1.w ∧
+              (Proc.writeFile ({ p with w := w1, lz := .opened t } : Proc) t d).2 = (Proc.writeFile ({ w := w1 } : Proc) t d).2 ∧
+              (Proc.writeFile ({ p with w := w1, lz := .opened t } : Proc) t d).1.lz = .opened t := by
+            simp only [Proc.writeFile]; cases w1.get t <;> simp
+          refine ⟨hw.1, hw.2.2, ?_⟩
+          rw [hw.2.1]; cases (Proc.writeFile ({ w := w1 } : Proc) t d).2 <;> rfl
 
 end GoTie
 end AgeModel
